@@ -664,3 +664,62 @@ def round2_programs(dev):
         {"op": "aspirate", "lw": 1, "wells": L([(1, 1)]), "vols": S(3), "label": "only B"},
     ], wlmax=30, flags={"comp": False, "norm": False})
     return progs
+
+
+def config_programs(dev):
+    """The worklist's public configuration (max_volume, auto_split) is state: every operation obeys the values current at its call."""
+    progs = []
+    P, T, Sx = 0, 1, 2
+
+    def prog(name, ops, **kw):
+        h = _hdr(f"config/{name}", dev, base_labware(), flags={"comp": False, "norm": False}, **kw)
+        h["ops"] = ops
+        progs.append(h)
+
+    same = {"op": "transfer", "src": T, "sw": L([(0, 0), (1, 0)]), "dst": P, "dw": L([(0, 1), (1, 1)]), "vols": L([6, 3]), "wash": 1}
+    # the same transfer under three configurations of one worklist object (larger -> smaller -> larger)
+    prog("shrink-then-grow", [
+        dict(same, label="one step each"),
+        {"op": "setconfig", "maxv": 2},
+        dict(same, label="now three and two steps"),
+        {"op": "setconfig", "maxv": 10},
+        dict(same, label="one step each again"),
+        {"op": "setconfig", "maxv": 4},
+        dict(same, label="two steps and one"),
+    ], wlmax=10)
+    prog("grow-then-shrink", [
+        dict(same, label="small tips"),
+        {"op": "setconfig", "maxv": 12},
+        dict(same, label="big tips"),
+        {"op": "setconfig", "maxv": 2},
+        dict(same, label="small again"),
+    ], wlmax=2)
+    # auto_split switched off and on again
+    prog("autosplit-toggle", [
+        dict(same, label="split"),
+        {"op": "setconfig", "autosplit": False},
+        dict(same, label="refused now"),
+        {"op": "transfer", "src": T, "sw": L([(0, 0)]), "dst": P, "dw": L([(2, 1)]), "vols": S(3), "label": "fits", "wash": 1},
+        {"op": "setconfig", "autosplit": True},
+        dict(same, label="split again"),
+    ], wlmax=3)
+    prog("autosplit-off-then-larger-tips", [
+        dict(same, label="refused"),
+        {"op": "setconfig", "maxv": 6},
+        dict(same, label="fits now"),
+        {"op": "setconfig", "maxv": 5, "autosplit": True},
+        dict(same, label="split in two"),
+    ], wlmax=3, autosplit=False)
+    # single steps and distributions obey the current value as well
+    prog("single-steps", [
+        {"op": "aspirate", "lw": T, "wells": L([(0, 0)]), "vols": S(8), "label": "too large"},
+        {"op": "setconfig", "maxv": 8},
+        {"op": "aspirate", "lw": T, "wells": L([(0, 0)]), "vols": S(8), "label": "fits"},
+        {"op": "dispense", "lw": P, "wells": L([(0, 1)]), "vols": S(8), "label": "fits"},
+        {"op": "setconfig", "maxv": 7},
+        {"op": "dispense", "lw": P, "wells": L([(1, 1)]), "vols": S(8), "label": "too large again"},
+        {"op": "distribute", "src": T, "col": 0, "dst": P, "dw": L([(0, 2), (1, 2), (2, 2)]), "vol": 2, "label": "three per aspirate"},
+        {"op": "setconfig", "maxv": 4},
+        {"op": "distribute", "src": T, "col": 0, "dst": P, "dw": L([(0, 3), (1, 3), (2, 3)]), "vol": 2, "label": "two per aspirate"},
+    ], wlmax=5)
+    return progs
